@@ -370,6 +370,13 @@ func c06Check(ci interface{}) lib.Outcome {
 		}
 	}
 	la, lb = canonSort(la), canonSort(lb)
+	if !equalRecs(la, lb) && splitDone && openClass("matches-share-a-line") && c06OnlyCompetingDiffer(la, lb) {
+		// The token streams are identical (verified above); after a split only the line numbers differ, and they enter
+		// Match through the line-granular overlap filter alone (known finding F18): which of two candidates whose token
+		// spans overlap is kept depends on whether their first / last lines coincide. Every match that differs here
+		// overlaps a competitor, so this is that mechanism and not a new one.
+		return lib.Outcome{Excluded: "matches-share-a-line"}
+	}
 	if !equalRecs(la, lb) {
 		return lib.Outcome{Violation: fmt.Sprintf("%s: reported licenses changed\nbefore (lines mapped):\n%safter:\n%s", desc, fmtRecs(la), fmtRecs(lb))}
 	}
@@ -483,6 +490,46 @@ func lineText(ls []tline, line int) string {
 		return ls[line-1].s
 	}
 	return ""
+}
+
+// c06OnlyCompetingDiffer: every match that is in one result but not in the other overlaps, by token span, another
+// match of either result (candidates competing for the same words).
+func c06OnlyCompetingDiffer(a, b []mrec) bool {
+	in := func(r mrec, l []mrec) bool {
+		for _, x := range l {
+			if x == r {
+				return true
+			}
+		}
+		return false
+	}
+	all := append(append([]mrec{}, a...), b...)
+	check := func(r mrec) bool {
+		for _, s := range all {
+			if s != r && s.ST <= r.ET && r.ST <= s.ET {
+				return true
+			}
+		}
+		return false
+	}
+	diff := 0
+	for _, r := range a {
+		if !in(r, b) {
+			diff++
+			if !check(r) {
+				return false
+			}
+		}
+	}
+	for _, r := range b {
+		if !in(r, a) {
+			diff++
+			if !check(r) {
+				return false
+			}
+		}
+	}
+	return diff > 0
 }
 
 func TestVerif_C06(t *testing.T) {
